@@ -154,7 +154,7 @@ func c03Body(modes []sysMode, maxK int) func(x *X) {
 }
 
 func init() {
-	register(&Scenario{Prop: "C03", Name: "c03/cuts-servecodec", Quick: []Bound{{1, 1}, {2, 0}}, Thorough: []Bound{{3, 0}}, Body: c03Body(sysModes[:1], 5)})
+	register(&Scenario{Prop: "C03", Name: "c03/cuts-servecodec", Quick: []Bound{{1, 1}, {2, 0}}, Thorough: []Bound{{3, 0}}, Body: c03Body(sysModes[:1], 5), BudgetQ: 45})
 	register(&Scenario{Prop: "C03", Name: "c03/cuts-listen-poll", Quick: []Bound{{0, 1}, {1, 0}}, Thorough: []Bound{{2, 0}, {3, 0}}, Body: c03Body(sysModes[1:], 5)})
 }
 
